@@ -455,6 +455,16 @@ func c06Scenarios(r *hx.Run) []hx.Scenario {
 			}
 		}
 	}
+	// many datagrams held back (the peer completed long before this side did): none of them may be dropped
+	for _, server := range []bool{true, false} {
+		for _, ne := range []int{20, 70} {
+			if !r.Thorough() && (ne == 70 || !server) {
+				continue
+			}
+			out = append(out, hx.Scenario{Name: fmt.Sprintf("c06:burst:server=%v,early=%d,late=2", server, ne), Body: c06BurstBody(server, ne, 2),
+				Bounds: simrt.B(0, 0, 0), Cfg: simrt.Config{MaxSteps: 100000, BranchAfterMark: true}})
+		}
+	}
 	pb := 1
 	if r.Thorough() {
 		pb = 2
